@@ -46,7 +46,34 @@ def call(x, y, R, sample=False):
 
 
 def rnd_part(rng, atoms, big=False):
-    return gens.random_value(rng, atoms, rng.choice((1, 1, 1, 2, 2, 3) if not big else (1, 2, 3)), slashes=('/', '\\'))
+    return gens.random_value(rng, atoms, rng.choice((1, 1, 1, 2, 2, 3) if not big else (2, 3, 4, 4, 5, 6)), slashes=('/', '\\'))
+
+
+def one_leaf_changed(v, rng):
+    """exactly one atom gets a different concrete feature (everything else identical)"""
+    leaves = []
+
+    def paths(x, p=()):
+        if x[0] == 'A':
+            if x[1] in gens.EN_BASES:
+                leaves.append(p)
+        else:
+            paths(x[1], p + (1,))
+            paths(x[3], p + (3,))
+    paths(v)
+    if not leaves:
+        return v
+    target = rng.choice(leaves)
+
+    def put(x, p):
+        if not p:
+            cur = x[2][1] if x[2] else None
+            f = rng.choice([f for f in ('dcl', 'b', 'em', 'ng', 'pss', 'thr', 'expl') if f != cur])
+            return ('A', x[1], ('U', f))
+        lst = list(x)
+        lst[p[0]] = put(x[p[0]], p[1:])
+        return tuple(lst)
+    return put(v, target)
 
 
 def perturb_feats(v, rng, p):
@@ -64,11 +91,14 @@ def perturb_feats(v, rng, p):
 def schema_case(rng, atoms, punct):
     F = schemas_en.F_
     A, B, C, D = (rnd_part(rng, atoms) for _ in range(4))
+    if rng.random() < 0.3:
+        B = rnd_part(rng, atoms, big=True)               # deep matched part
     if rng.random() < 0.25:
         A = B                                            # modifier
     if rng.random() < 0.15:
         B = rng.choice((('A', 'N', None), ('A', 'NP', None)))   # bare N/NP
-    B2 = B if rng.random() < 0.45 else perturb_feats(B, rng, 0.5)
+    r0 = rng.random()
+    B2 = B if r0 < 0.4 else (perturb_feats(B, rng, 0.5) if r0 < 0.75 else one_leaf_changed(B, rng))
     sl = lambda s: s if rng.random() < 0.9 else '|'      # noqa: E731
     row = rng.choice(LABELS + ('tc', 'fa', 'ba', 'gbx', 'gfc', 'bx'))
     if row == 'fa':
